@@ -631,6 +631,9 @@ impl Check for C11 {
         ]
     }
 
+    fn devopt_scale(&self) -> Option<f64> {
+        Some(0.25)
+    }
     fn explore(&self, cli: &Cli, st: &mut Stats) {
         let nthreads = cli.threads;
         // ---- exhaustive histories for a few KBs ----
